@@ -75,6 +75,9 @@ class UrandomStub:
 def shadows(sh, params):
     if params.get('kat'):
         return
+    if params.get('install'):
+        from . import c10
+        return c10.shadows(sh, params)
     shadow_codecs(sh)
     import minecraft.networking.encryption as enc
     netenv.shadow_cipher(sh)
@@ -99,7 +102,8 @@ def _compositions(n, maxparts):
     return out
 
 
-def channel(ctx, n=12, sends=None, read_sizes=None, sentinel=False):
+def channel(ctx, n=12, sends=None, read_sizes=None, sentinel=False,
+            whole=False):
     """both wrappers over one login's cipher: bytes on the wire are the
     keystream encryption of the plaintext as ONE continuous stream, received
     bytes decrypt likewise, independently per direction, for any split"""
@@ -154,7 +158,8 @@ def channel(ctx, n=12, sends=None, read_sizes=None, sentinel=False):
         in_cipher = aes_cfb8.CFB8(bytes(secret), bytes(secret)).update(
             bytes(in_plain))
     # ---- receiving through the file-object wrapper: symbolic segmentation
-    stream = netenv.Stream(in_cipher if sym else bytes(in_cipher))
+    stream = netenv.Stream(in_cipher if sym else bytes(in_cipher),
+                           whole=whole)
     rfile = enc.EncryptedFileObjectWrapper(stream, decryptor)
     got = []
     for want in read_sizes:
@@ -228,6 +233,70 @@ def secrets(ctx, token_len=4, sentinel=False):
     conds += [produced_by(et, token), produced_by(es, s1)]
     note_key(ctx, 'C18:secrets')
     return z3.And(*conds)
+
+
+def install(ctx, install=True, sentinel=False):
+    """the installation code in LoginReactor.react: after the encryption
+    response BOTH wrappers (socket.recv and file_object.read) continue ONE
+    received stream with ONE decryptor, and sending continues one encrypted
+    stream - checked by mixing recv() and read() on bytes the server sends
+    after the login, and by a further write"""
+    import minecraft.networking.connection as cn
+    import minecraft.networking.packets.packet as pk
+    from minecraft.networking.connection import Connection
+    from . import c10, world as W_
+    from .world import World
+    sym = ctx.mode == 'sym'
+    zl = netenv.ZlibStub()
+    vals = {'threshold': 0, 'verify_token': ctx.bytes('verify_token', 4),
+            'keep_alive': ctx.int('keep_alive', 0, 127), 'plugin_id0': 0,
+            'plugin_id1': 0, 'disconnect': '', 'server_id': '-'}
+    privkey = None
+    if sym:
+        vals['public_key'] = ctx.bytes('public_key', 8)
+        ctx.env['ks_c2s'] = netenv.Keystream('ks_c2s', 200)
+        ctx.env['ks_s2c'] = netenv.Keystream('ks_s2c', 200)
+    else:
+        from cryptography.hazmat.primitives.asymmetric import rsa
+        from cryptography.hazmat.primitives import serialization
+        privkey = rsa.generate_private_key(public_exponent=65537,
+                                           key_size=1024)
+        vals['public_key'] = privkey.public_key().public_bytes(
+            serialization.Encoding.DER,
+            serialization.PublicFormat.SubjectPublicKeyInfo)
+    extra = ctx.bytes('extra', 6)
+    servers = []
+
+    def factory(wld, sock):
+        s = c10.LoginServer(wld, sock, 757, 'ES', vals, zl)
+        s.privkey = privkey
+        servers.append(s)
+        return s
+    with netenv.patched(pk, compress=zl.compress), \
+            netenv.patched(cn, zlib=zl), World(ctx, factory) as wld:
+        conn = Connection('host', 25565, username='u',
+                          allowed_versions=[757])
+        wld.conn = conn
+        conn.connect()
+        wld.run()
+        srv = servers[0]
+        if srv.enc_out is None:
+            return z3.BoolVal(False)
+        # six more (encrypted) bytes from the server, fetched alternately
+        # through the two wrappers
+        items = list(bytes_items(srv.enc_out.update(
+            SBytes(bytes_items(extra)).fold() if sym else bytes(extra))))
+        srv.push(items)
+        got = []
+        got += list(bytes_items(conn.socket.recv(2)))
+        got += list(bytes_items(conn.file_object.read(2)))
+        got += list(bytes_items(conn.socket.recv(2)))
+        if sentinel:
+            got = got[::-1]
+    note_key(ctx, 'C18:install')
+    return z3.And(z3.BoolVal(srv.problems == []),
+                  items_eq(got, bytes_items(extra)),
+                  z3.BoolVal(len(srv.after) == 1))   # the keep-alive reply
 
 
 def kat(ctx, kat=True):
@@ -304,6 +373,13 @@ def instances(tier, seed):
     for tl in (1, 4, 16, 64):
         out.append(Instance('secrets:%d' % tl, 'secrets', {'token_len': tl},
                             W=64))
+    out.append(Instance('install', 'install', {'install': True}, W=192,
+                        budget_s=900, max_decisions=200000))
+    # one large write (several KiB in one send call, a power-of-two size)
+    out.append(Instance('channel:4096', 'channel',
+                        {'n': 4096, 'sends': [4096], 'read_sizes': [4096],
+                         'whole': True},
+                        W=64, budget_s=1800, max_decisions=400000))
     out += [
         Instance('sentinel:channel', 'channel',
                  {'n': 4, 'sends': [4], 'read_sizes': [4], 'sentinel': True},
@@ -312,5 +388,9 @@ def instances(tier, seed):
         Instance('sentinel:secrets', 'secrets',
                  {'token_len': 4, 'sentinel': True}, W=64,
                  expect='violation', note='token and secret swapped'),
+        Instance('sentinel:install', 'install',
+                 {'install': True, 'sentinel': True}, W=192,
+                 expect='violation', max_decisions=200000,
+                 note='received bytes demanded in reverse order'),
     ]
     return out
